@@ -208,7 +208,25 @@ pub fn matching(s: &Schema, rng: &mut Rng) -> Node {
             }
             mapn(es)
         }
-        "Enum" => match rng.below(8) {
+        "Enum" => match rng.below(11) {
+            // the tagged notation `!Variant payload` (the crate reads the tag on scalar and sequence nodes)
+            8 => {
+                let pay = matching(&s.ss[0], rng);
+                match pay {
+                    Node::Scalar { v, q, .. } if !(q == "p" && (v.is_empty() || v == "~" || v.eq_ignore_ascii_case("null"))) => Node::Scalar { a: 0, v, q, t: "!Nw".into() },
+                    Node::Seq { items, .. } => Node::Seq { a: 0, t: "!Nw".into(), items },
+                    other => mapn(vec![(sc("Nw"), other)]),
+                }
+            }
+            9 => Node::Seq { a: 0, t: "!T".into(), items: vec![matching(&s.ss[1], rng), matching(&s.ss[2], rng)] },
+            // (tagged scalars whose text is null-like are left out: Option targets and the null-document rule look at the text
+            // only, so `!U ~` is a null there - see DESIGN 0.6)
+            10 => match rng.below(4) {
+                0 => Node::Scalar { a: 0, v: "x".into(), q: "p".into(), t: "!U".into() },
+                1 => Node::Scalar { a: 0, v: "1".into(), q: "p".into(), t: "!X".into() },
+                2 => Node::Scalar { a: 0, v: "5".into(), q: "p".into(), t: "!T".into() },
+                _ => Node::Scalar { a: 0, v: "w".into(), q: "d".into(), t: "!St".into() },
+            },
             // bare variant names, also for variants that carry a payload (near misses; a newtype variant with an
             // optional or unit payload accepts the bare form)
             5 => sc("Nw"),
